@@ -17,3 +17,4 @@ PROP = {'engine': 'stack',
  'level_text': 'random search over arrival orders (latch-enforced linear extensions) and directory contents against the real init orchestration.',
  'level_note': 'orders are at the granularity of whole API calls; one generation only',
  'technique': 'property-based testing (rapid): generated schedules (linear extensions enforced by latches), history invariant effect-vs-issue'}
+PROP['rule'] += ' Round-4 addition: entries of the extensions directory may also be named pipes, unix sockets and symlinks without a target: everything that is not a directory is launched.'
